@@ -606,12 +606,8 @@ impl DirTourist {
 			match entry.file_type().await {
 				Ok(ft) => {
 					if ft.is_dir() {
-						if !self.filter.check_dir(&path) {
-							trace!("path is ignored, adding to skip list");
-							self.skip(path);
-							continue;
-						}
-
+						// whether the dir is ignored is decided when it is visited: by then
+						// the ignore files of this directory (its parent) have been loaded
 						trace!("found a dir, adding to list");
 						self.to_visit.push(path);
 					} else {
